@@ -389,13 +389,36 @@ impl Prop for C01 {
 				Case { ty, input: Input::from_bytes(b), src: Src::RandomBytes }
 			},
 		);
+		// ill-formed UTF-8 of every class (truncated, broken continuation, overlong 2/3/4 - including
+		// overlong forms of characters the grammar ALLOWS -, surrogates, > U+10FFFF, F5-FF) spliced into a member
+		let illformed: Vec<Vec<u8>> = vec![
+			vec![0xC1, 0x81], vec![0xC0, 0xAF], vec![0xE0, 0x83, 0xA9], vec![0xE0, 0x9F, 0xBF], vec![0xF0, 0x82, 0x82, 0xAC], vec![0xF0, 0x8F, 0xBF, 0xBF],
+			vec![0xF0, 0x80, 0x80, 0xAF], vec![0xED, 0xA0, 0x80], vec![0xED, 0xBF, 0xBF], vec![0xF4, 0x90, 0x80, 0x80], vec![0xF5, 0x80, 0x80, 0x80],
+			vec![0xC3], vec![0xE8, 0xAA], vec![0xF0, 0x90, 0x80], vec![0x80], vec![0xBF], vec![0xFE], vec![0xFF], vec![0xC3, 0x28], vec![0xE8, 0x28, 0x9E],
+			vec![0xF8, 0x88, 0x80, 0x80, 0x80], vec![0xEF, 0xBF], vec![0xE2, 0x82, 0xAC, 0x80],
+		];
+		let spliced = (ty_strategy(), vec(any::<u16>(), 0..60), select(illformed), any::<u16>()).prop_map(|(ty, ch, bad, at)| {
+			let base = derive(ty, &ch);
+			let mut b = base.bytes().to_vec();
+			// insert on a character boundary of the (valid) base
+			let s = String::from_utf8_lossy(&b).to_string();
+			let bounds: Vec<usize> = s.char_indices().map(|(i, _)| i).chain(std::iter::once(s.len())).collect();
+			let k = bounds[((at as usize) * bounds.len()) >> 16];
+			if s.len() == b.len() {
+				for (i, x) in bad.iter().enumerate() {
+					b.insert(k + i, *x)
+				}
+			}
+			Case { ty, input: Input::from_bytes(b), src: Src::RandomBytes }
+		});
 		prop_oneof![
 			30 => derive_s,
 			20 => derive_mut,
 			15 => structural_s,
 			15 => structural_mut,
 			10 => random,
-			10 => random_bytes,
+			6 => random_bytes,
+			6 => spliced,
 		]
 		.boxed()
 	}
